@@ -543,6 +543,8 @@ def mark_inputs(ctx, args, kwargs):
         elif isinstance(v, SArr):
             v.owner = frozenset([f"param:{path}"])
         elif isinstance(v, Qty):
+            ctx.frozen_qty[id(v)] = path      # NumPy's in-place operators mutate a Quantity object itself
+            ctx.frozen_keep.append(v)
             walk(v.val, path)
         elif isinstance(v, STime):
             walk(v.sec, path)
